@@ -61,14 +61,18 @@ def run(ctx, replay):
         for i, sc in enumerate(scen):
             sc["sid"] = i + 1
     # ---- 3. replay on the real RoomLockService
-    sp = ctx.write_scenarios(scen)
+    if replay and scen and "conn" in scen[0]:
+        svc = []
+    else:
+        svc = scen
+    sp = ctx.write_scenarios(svc)
     tp = os.path.join(ctx.work, "trace.ndjson")
     r = ctx.dv(["roomlock", sp, tp])
     ctx.cov["steps_executed"] += r.get("events", 0)
     # ---- 4. validate the traces
-    by_sid = {sc["sid"]: sc for sc in scen}
+    by_sid = {sc["sid"]: sc for sc in svc}
     nontrivial = set()
-    for k in sorted(set(sc["max"] for sc in scen)):
+    for k in sorted(set(sc["max"] for sc in svc)):
         sub = os.path.join(ctx.work, "trace_%d.ndjson" % k)
         with open(sub, "w") as f:
             for t in vlib.split_trace(tp):
@@ -89,10 +93,66 @@ def run(ctx, replay):
         d = [x for x in res if not x["ok"]]
         if d and "drift_sample" not in ctx.cov:
             ctx.cov["drift_sample"] = d[0]["reason"]
+    # ---- 5. the connection level: grants start real synchronisation tasks; connections end while tasks run
+    if not replay or (replay and scen and "conn" in scen[0]):
+        cl = "CONSTANTS\n  Conn = {%s}\n  Room = {%s}\n  MaxLock = %d\n  DEV = {%s}\n"
+        if not replay:
+            C3, R2 = '"c1", "c2", "c3"', '"r1", "r2"'
+            inv = "SPECIFICATION Spec\nINVARIANTS ExclusiveSync BoundedSync HeldMeansRunning NoLostLock\nCHECK_DEADLOCK FALSE\n"
+            ctx.model_check(D, "ConnLock", cl % (C3, R2, 1, "") + inv, "conn_design_1")
+            ctx.model_check(D, "ConnLock", cl % (C3, R2, 2, "") + inv, "conn_design_2")
+            ctx.expect_counterexample(D, "ConnLock", cl % (C3, R2, 1, '"CleanupReleasesRunningTasks"') + inv, "conn_cex_running")
+            ctx.expect_counterexample(D, "ConnLock", cl % (C3, R2, 1, '"ExitForgetsPendingGrants"') + inv, "conn_cex_pending")
+            cscen = []
+            for (k, n) in ([(1, 7)] if quick else [(1, 9), (2, 9)]):
+                hs = ctx.generate(D, "Gen_ConnLock", cl % (C3, R2, k, '"CleanupReleasesRunningTasks", "ExitForgetsPendingGrants"') +
+                                  "  MaxLen = %d\nSPECIFICATION GSpec\nVIEW GView\nCONSTRAINT Bound\nINVARIANT Emit\nCHECK_DEADLOCK FALSE\n" % n,
+                                  "conn_gen_%d" % k, workers=1, timeout=900)
+                for h in hs:
+                    steps = [({"op": "start", "c": o["c"]} if o["op"] == "start" else o) for o in h if o["op"] != "grant"]      # the service decides the grants
+                    if steps:
+                        # then every connection ends, every task ends, and a new connection asks for each room in turn
+                        tail = [{"op": "exit", "c": c} for c in ("c1", "c2", "c3")] + [{"op": "drain", "c": "c1"}]
+                        for r in ("r1", "r2"):
+                            tail += [{"op": "req", "c": "probe", "r": r}, {"op": "start", "c": "probe"}, {"op": "done", "c": "probe", "r": r}]
+                        cscen.append({"max": k, "steps": steps + tail, "conn": True})
+            seen = set()
+            uniq = []
+            for sc in cscen:
+                key = json.dumps(sc, sort_keys=True)
+                if key not in seen:
+                    seen.add(key)
+                    uniq.append(sc)
+            import random
+            rnd = random.Random(ctx.seed)
+            if quick and len(uniq) > 400:
+                uniq = rnd.sample(uniq, 400)
+            for i, sc in enumerate(uniq):
+                sc["sid"] = 100000 + i
+            cscen = uniq
+        else:
+            cscen = scen
+        csp = ctx.write_scenarios(cscen, "conn_scenarios.ndjson")
+        ctp = os.path.join(ctx.work, "conn_trace.ndjson")
+        ctx.dv_world(csp, ctp, nproc=4, sub="connlock")
+        known_ids = [f["id"] for f in ctx.known]
+        ccfg = "CONSTANTS\n  KNOWN = {%s}\nSPECIFICATION TSpec\nINVARIANT Monitors\nPOSTCONDITION Reached\nCHECK_DEADLOCK FALSE\n" % (
+            ", ".join('"%s"' % k for k in known_ids))
+        cby = {sc["sid"]: sc for sc in cscen}
+        for x in ctx.validate(D, "Trace_ConnLock", ccfg, ctp, "conn_val", chunk=300, max_fail=5):
+            if x["ok"]:
+                ctx.cov["traces_validated_against_impl"] += 1
+                for dv in x["devs"]:
+                    ctx.cov["deviations_observed"][dv] = ctx.cov["deviations_observed"].get(dv, 0) + 1
+                    ctx.known_finding(dv, next(f.get("what", "") for f in ctx.known if f["id"] == dv))
+            else:
+                ctx.violation(x["reason"], {"property": "C20", "scenario": cby[x["sid"]], "trace": x["lines"], "reason": x["reason"]})
+        ctx.cov["connection_level_scenarios"] = len(cscen)
     for t in vlib.split_trace(tp)[:3]:
         ctx.cov["samples"].append({"scenario": by_sid[t["sid"]], "trace": [json.loads(x) for x in t["lines"]]})
     ctx.assumptions += ["one message is handled atomically by the service actor (observed after the actor went back to waiting)",
-                        "bounds: <=3 connections, <=3 rooms, limit 1-2, message sequences up to the generator's MaxLen"]
+                        "bounds: <=3 connections, <=3 rooms, limit 1-2, message sequences up to the generator's MaxLen",
+                        "connection level: a task is kept running by leaving its first query unanswered; the grant a connection receives and the start of its task are one step"]
     return ctx.finish("model_checking",
                       "scenarios = message sequences reaching every (service state, last message) of the bounded RoomLock model "
                       "(TLC, VIEW hiding the history), prefixes removed; non-trivial = distinct sequences in which at least two "
